@@ -55,6 +55,24 @@ Example c11_stale_future_witness :
   hold_ok (witrace w_tapes2 [] [] [] false w_stale_evs) = false.
 Proof. vm_compute. repeat split. Qed.
 
+
+(* ... and so is the plainness of the pre-plan: this one switches rewindable back on, issues a message (which is cached)
+   and then pauses; after resume() the cached message is replayed while the suspension is still unreleased *)
+Definition w_mm (c : cmd) (i : nat) : msg := {| mid := Some i; mcmd := c; mobj := None; mrun := 0 |}.
+Definition w_tapes3 : list (nat * list tout) :=
+  [(0, [TY (w_mm CNull 0); TY (w_mm CNull 1); TR VNone]);
+   (1000, [TY (w_mm (CRewindable (Some true)) 10); TY (w_mm CNull 11); TY (w_mm (CPause false) 12); TR VNone])].
+Definition w_plain_evs : list event :=
+  [EvMain (ACall 0); EvPermit; EvTask; EvTask; EvReqSuspend 0 true false; EvTask; EvTask; EvTask; EvTask; EvTask; EvTask; EvTask;
+   EvMainDone (ACall 0); EvMain AResume; EvPermit; EvTask; EvTask; EvTask].
+Example c11_plain_needed_witness :
+  finding_C11_a w_plain_evs = false /\ finding_C11_b w_plain_evs = false /\ call_while_suspended w_plain_evs = false /\
+  stale_future w_plain_evs = false /\
+  no_bad (snd (wirun w_tapes3 [] [] [] false w_plain_evs)) = true /\
+  plain_susp_plans (witrace w_tapes3 [] [] [] false w_plain_evs) = false /\
+  hold_ok (witrace w_tapes3 [] [] [] false w_plain_evs) = false.
+Proof. vm_compute. repeat split. Qed.
+
 Definition has_obs (x : obs) (l : list obs) : bool := if in_dec obs_eq_dec x l then true else false.
 
 (* non-vacuity on recorded real runs: the plain suspension of RE_CtlExamples and a suspension with pre- and
